@@ -316,6 +316,7 @@ type c11Any struct {
 	D *c11DevFull `json:"devfull,omitempty"`
 	R *c11Recover `json:"recovery,omitempty"`
 	B *c11BgFlush `json:"bgflush,omitempty"`
+	X *c11Damaged `json:"damaged,omitempty"`
 }
 
 func (c *c11Any) inner() Case {
@@ -332,6 +333,8 @@ func (c *c11Any) inner() Case {
 		return c.R
 	case c.B != nil:
 		return c.B
+	case c.X != nil:
+		return c.X
 	}
 	return c.F
 }
@@ -416,6 +419,12 @@ func genC11All(r *rand.Rand, tier string) []Case {
 			rc.Limits = append(rc.Limits, lim+r.Intn(10))
 		}
 		out = append(out, &c11Any{R: rc})
+	}
+	for i := 0; i < 2*nc; i++ {
+		out = append(out, &c11Any{X: &c11Damaged{NTables: 2 + r.Intn(3), Victim: r.Intn(4)}})
+	}
+	for i := 0; i < nc; i++ {
+		out = append(out, &c11Any{X: &c11Damaged{NTables: 2 + r.Intn(2), Victim: r.Intn(4), IdxHole: true}})
 	}
 	// a flush failing on the real background goroutine
 	for i, f := range []string{"data.rio", "index.rio", "meta.pb.bin", "bloom.bf.gz"} {
